@@ -603,6 +603,38 @@ func jsonCase(e *Env, doc *JNode, forceLarge bool, cls string) {
 		"bin": B(bin), "obs": obs})
 }
 
+// poisonJSON decodes a few documents that cannot be rendered - a valid document cut short, one with an impossible type byte
+// and one whose LAST member is an opaque value of a column type JSON cannot hold (so that the failure comes after part of
+// the text has been produced) - and drops the results: what a column decodes to does not depend on what was decoded before.
+func poisonJSON(e *Env) {
+	doc := &JNode{K: "obj", Keys: []string{"a", "b", "c"}, Vals: []*JNode{genJInt(e.R), {K: "str", S: "partial output"}, {K: "arr", Vals: []*JNode{genJInt(e.R), genJInt(e.R)}}}}
+	bin := JsonbDoc(doc, e.R.Intn(2) == 0)
+	var bads [][]byte
+	bads = append(bads, append([]byte(nil), bin[:len(bin)*2/3]...))
+	b2 := append([]byte(nil), bin...)
+	b2[len(b2)-1-e.R.Intn(4)] ^= 0xff
+	bads = append(bads, b2)
+	// {"a": 1, "b": [1, <opaque BIT(16)>]} and {"a": "x", "b": <opaque GEOMETRY>}: hand-made small objects
+	for _, ft := range []byte{16, 255, 245, 0} {
+		arr := []byte{2, 0, 0, 0, 5, 1, 0, 15, 0, 0} // small array: 2 elements, size (patched below), int16 1 inlined, opaque at offset (patched)
+		arr[8] = byte(len(arr))                      // offset of the opaque value
+		arr = append(arr, ft, 2, 0xab, 0xcd)         // field type, length 2, two bytes
+		arr[2] = byte(len(arr))
+		obj := []byte{2, 0, 0, 0, 0, 0, 1, 0, 0, 0, 1, 0, 5, 7, 0, 2, 0, 0} // 2 members: key entries (offset,len), value entries: int16 7 inlined, small array at offset
+		ko := len(obj)
+		obj = append(obj, 'a', 'b')
+		obj[4], obj[8] = byte(ko), byte(ko+1)
+		obj[16] = byte(len(obj))
+		obj = append(obj, arr...)
+		obj[2] = byte(len(obj))
+		bads = append(bads, append([]byte{0}, obj...))
+	}
+	for _, b := range bads {
+		raw := append(leN(uint64(len(b)), 4), b...)
+		safely(func() { replication.CellBytes(raw, 0, replication.TypeJSON, 4, false) })
+	}
+}
+
 func modeC14(e *Env) {
 	// (a) every scalar kind at top level and inside a one-element array / object, small and forced-large
 	for i := 0; i < e.N(300, 6000); i++ {
@@ -619,6 +651,9 @@ func modeC14(e *Env) {
 			depth, fan = 2, 40
 		}
 		doc := genJDoc(e.R, depth, fan)
+		if i%3 == 1 {
+			poisonJSON(e)
+		}
 		jsonCase(e, doc, false, "document")
 		if i%3 == 0 {
 			jsonCase(e, doc, true, "document-forced-large")
@@ -717,11 +752,26 @@ func posFromJSON(v interface{}) (M, bool) {
 
 // txJSONCase marshals the transaction with the real MarshalJSON, parses the bytes back with encoding/json and
 // records both the projection of the Go value and the projection of the parsed JSON.
+var lastJSONTx *gobinlog.Transaction // the transaction serialised by the previous case
+
 func txJSONCase(e *Env, t *gobinlog.Transaction, cls string) {
 	in := projTx(t)
 	var raw []byte
 	var err error
-	rec := safely(func() { raw, err = json.Marshal(t) })
+	// the library's own marshaler is called directly, as an application that writes transactions to a file or a queue does,
+	// and its result is looked at only after ANOTHER transaction has been serialised: the text that was handed out stays
+	// the text of this transaction
+	rec := safely(func() {
+		_, e2 := json.Marshal(t) // (what encoding/json says about the marshaler's output)
+		raw, err = json.Marshaler(t).MarshalJSON()
+		if err == nil {
+			err = e2
+		}
+		if lastJSONTx != nil {
+			json.Marshaler(lastJSONTx).MarshalJSON()
+		}
+	})
+	lastJSONTx = t
 	obs := M{"err": err != nil, "panic": rec.panicked, "wellformed": false, "shape": false}
 	empty := M{"file": B(nil), "off": "0"}
 	obs["now"], obs["next"], obs["evs"] = empty, empty, []M{}
@@ -926,7 +976,6 @@ func modeC20(e *Env) {
 	}
 }
 
-
 // jsonStates serialises the transaction with the library's marshalers and reports, for every cell of every row image,
 // how it came out: "absent" (isEmpty), "null" (data is JSON null), "str" (data is a JSON string), "bad" otherwise.
 func jsonStates(t *gobinlog.Transaction) []M {
@@ -994,7 +1043,6 @@ func modeC20s(e *Env) {
 }
 
 func init() { modes["c20s"] = modeC20s }
-
 
 // redeclaredLog: one table (fixed name "dj.tj", fixed column names) whose column types change between transactions - the same
 // id and name announced again after an ALTER ... MODIFY, and the name announced under a new id - so that, within one
